@@ -14,13 +14,13 @@ Definition ex_hist : list op :=
     OQuotaAdd 2 0 true cm (v3 10 20 0) cm (v3 4 8 0) (v3 0 0 0);
     OQuotaAdd 3 2 true cm (v3 6 20 0) cm (v3 2 4 0) (v3 0 0 0);
     OQuotaAdd 5 2 false cm (v3 8 10 0) cm (v3 2 4 0) (v3 1 1 0);
-    OPodAdd 1 3 false (v3 4 5 7) am; OPodAdd 2 3 false (v3 3 5 0) cm; OPodAdd 3 5 true (v3 2 2 0) cm;
-    OPodAdd 4 5 true (v3 1 3 0) cm;
-    OAttempt 1; OAttempt 2; OAttempt 3; OAttempt 4;
-    OUnreserve 1; OCheck 2; OPodAdd 5 5 false (v3 1 0 0) cm; OCapacity (v3 30 40 0); OReserve 2;
+    OPodAdd 1 3 false (v3 4 5 7) am false; OPodAdd 2 3 false (v3 3 5 0) cm false; OPodAdd 3 5 true (v3 2 2 0) cm false;
+    OPodAdd 4 5 true (v3 1 3 0) cm false;
+    OAttempt 1; OAttempt 2; OAttempt 3; OAttempt 4; OPodStatus 3 false true;
+    OUnreserve 1; OCheck 2; OPodAdd 5 5 false (v3 1 0 0) cm false; OCapacity (v3 30 40 0); OReserve 2;
     OPodDelete 2;
     OQuotaUpdate 3 (v3 9 20 0) cm (v3 2 4 0) (v3 0 0 0);
-    OQuotaFlipLend 5; OPodRelabel 3; OCapacity (v3 5 9 0); OAttempt 1; OAttempt 4 ].
+    OQuotaFlipLend 5; OPodRelabel 3; OCapacity (v3 5 9 0); OAttempt 1; OAttempt 4; ORestart ].
 
 Lemma ex_hist_wf_proof : forall rt chk,
   wf_hist (mkConfig rt chk) init_state None ex_hist = true
@@ -40,7 +40,7 @@ Proof. vm_compute. reflexivity. Qed.
 Lemma ex_bound_pod_proof :
   let st := exec (mkConfig false true) init_state
                  [OQuotaAdd 1 0 true cm (v3 4 4 0) cm (v3 0 0 0) (v3 0 0 0);
-                  OPodAddBound 1 1 false (v3 9 1 0) cm] in
+                  OPodAddBound 1 1 false (v3 9 1 0) cm false] in
   map (fun q => (q_used q, q_max q, q_taint q)) (quotas st) = [(v3 9 1 0, v3 4 4 0, true)].
 Proof. vm_compute. reflexivity. Qed.
 
@@ -50,8 +50,43 @@ Lemma ex_parent_proof :
                  [OQuotaAdd 2 0 true cm (v3 4 4 0) cm (v3 0 0 0) (v3 0 0 0);
                   OQuotaAdd 3 2 true cm (v3 4 4 0) cm (v3 0 0 0) (v3 0 0 0);
                   OQuotaAdd 5 2 true cm (v3 4 4 0) cm (v3 0 0 0) (v3 0 0 0);
-                  OPodAdd 1 3 false (v3 3 1 0) cm; OPodAdd 2 5 false (v3 3 1 0) cm;
+                  OPodAdd 1 3 false (v3 3 1 0) cm false; OPodAdd 2 5 false (v3 3 1 0) cm false;
                   OAttempt 1; OAttempt 2] in
   map (fun q => (q_id q, q_used q, q_taint q)) (quotas st)
   = [(2, v3 6 2 0, true); (3, v3 3 1 0, false); (5, v3 3 1 0, false)].
 Proof. vm_compute. reflexivity. Qed.
+
+(* a quota tree whose key sets differ along the parent chain (org {cpu,mem,ext} -> team {cpu,mem}
+   -> leaf {cpu,mem,ext}), parent check on, limit = max: the third pod is rejected by ORG's ext
+   limit although the intermediate quota does not declare ext; org stays within max *)
+Definition ex_sandwich : list op :=
+  [ OQuotaAdd 2 0 true am (v3 100 100 2) am (v3 0 0 0) (v3 0 0 0);
+    OQuotaAdd 4 2 true cm (v3 100 100 0) cm (v3 0 0 0) (v3 0 0 0);
+    OQuotaAdd 5 4 true am (v3 100 100 10) am (v3 0 0 0) (v3 0 0 0);
+    OPodAdd 1 5 false (v3 1 0 1) (mkMask true false true) false;
+    OPodAdd 2 5 false (v3 1 0 1) (mkMask true false true) false;
+    OPodAdd 3 5 false (v3 1 0 1) (mkMask true false true) false;
+    OAttempt 1; OAttempt 2; OAttempt 3 ].
+Lemma ex_sandwich_proof :
+  let cfg := mkConfig false true in
+  wf_hist cfg init_state None ex_sandwich = true /\ benign cfg init_state ex_sandwich = true
+  /\ map o_status (skipn 6 (run cfg init_state ex_sandwich)) = [0; 0; 1]
+  /\ map (fun q => (q_id q, q_used q, q_taint q)) (quotas (exec cfg init_state ex_sandwich))
+     = [(2, v3 2 0 2, false); (4, v3 2 0 2, false); (5, v3 2 0 2, false)].
+Proof. vm_compute. repeat split; reflexivity. Qed.
+
+(* fail-over: a pod admitted and bound (still Pending) before the restart is charged again by the
+   replay — without tainting its quota — so the next pod is rejected; for all four switch settings *)
+Definition ex_restart : list op :=
+  [ OCapacity (v3 100 100 0);
+    OQuotaAdd 1 0 true cm (v3 10 10 0) cm (v3 0 0 0) (v3 0 0 0);
+    OPodAdd 1 1 false (v3 6 6 0) cm false; OAttempt 1; OPodStatus 1 false true;
+    OPodAdd 2 1 false (v3 3 3 0) cm false; OAttempt 2;
+    ORestart;
+    OPodAdd 3 1 false (v3 6 6 0) cm false; OAttempt 3 ].
+Lemma ex_restart_proof : forall rt chk,
+  let cfg := mkConfig rt chk in
+  wf_hist cfg init_state None ex_restart = true /\ benign cfg init_state ex_restart = true
+  /\ map o_status (filter (fun o => negb (length (o_limits o) =? 0)%nat) (run cfg init_state ex_restart)) = [0; 0; 1]
+  /\ map (fun q => (q_used q, q_taint q)) (quotas (exec cfg init_state ex_restart)) = [(v3 6 6 0, false)].
+Proof. intros [|] [|]; vm_compute; repeat split; reflexivity. Qed.
